@@ -22,6 +22,7 @@ EXPLANATION = (
     "FINITE: a finiteness rejection over amplitude and detuning samples exists on the validation path. "
     "NOT decided: the arithmetic of clock rounding, averages and DMM weight products as numbers ('only lengthened to the next multiple'). PASS (added): the duration check is applied to the very end time stored in the new slot; the off pulse validated by _process_eom_parameters carries the detuning_off computed by calculate_detuning_off (the one that is returned and scheduled). GUARD tables require `is not None` (a truthiness test is rejected where 0 is a legal limit); validations extracted into private helpers are followed with their parameters bound to the caller's arguments. Round 3 (added): a DMM pulse is validated against the detuning map found for that DMM (validate_pulse(pulse, <that map>) on the `map is not None` branch); the amplitude compared with max_amp is the programmed one (no rounding); guards written as a loop over a literal table of cases or behind a local callee are decided on the symbolic normal form."
     ' Round 5 (added after an independent audit found four defects, all repaired): the pulse returned by _validate_and_adjust_pulse -- re-sampled with change_duration when the duration is adjusted to the clock -- is itself an argument of validate_pulse; every alternative of the value validate_duration returns is compared with max_duration before it is returned; a float tolerance on a limit is a rounding of the DIFFERENCE with the limit (`round(q - L, n) > 0`, `q - L > 10**-PRECISION`, decided on the symbolic normal form, which keeps the signs), never a rounding of the quantity alone.'
+    ' Round 6 (added after the fifth independent round of breaking changes): the DMM pulse is validated against the detuning map of the addressed DMM channel (the scan of config_detuning_map calls stops at the call whose name matches the channel); the re-sampled pulse is validated under the very condition that selects change_duration (or unconditionally).'
 )
 ASSUMPTIONS = [
     "guards are matched structurally (roots/tags/relation); numeric equivalence of differently written guards is not attempted",
